@@ -24,8 +24,12 @@ import tempfile
 import time
 
 DRIVER = "C09"
-RULE = ("programs: 1-2-d int64/float64 arrays of <=24 elements in <=12 chunks; kinds {chain, reduce, reduce0d, unstack, "
-        "rechunk, two-outputs, concat, mean, argmax, zero(fill-only chunks)} x optimize_graph in {False, True}; every "
+RULE = ("fixed corpus first, outside any time box, every crash point: unstack, qr (fused and unfused), svd — operations one "
+        "task of which writes several output arrays; for every multi-output operation the crash points 'one output complete, "
+        "a sibling incomplete' are additionally resumed with the threads executor, and the corpus is also crashed under the "
+        "threads executor at every 2nd point; then generated "
+        "programs: 1-2-d int64/float64 arrays of <=24 elements in <=12 chunks; kinds {chain, reduce, reduce0d, unstack, "
+        "rechunk, two-outputs, concat, mean, argmax, zero(fill-only chunks), qr, svd} x optimize_graph in {False, True}; every "
         "crash point j in 0..total writes (metadata documents and chunk writes) with the single-threaded executor; resume "
         "with single-threaded at every point, threads at every 3rd point, processes at a few points; extra crashes under "
         "the threads executor (several tasks in flight); non-trivial = at least one chunk present at the crash and at "
@@ -54,8 +58,14 @@ def _chunks_for(rng, shape):
 
 def gen_program(rng, kind=None):
     kinds = ["chain", "chain", "reduce", "reduce", "reduce0d", "unstack", "unstack", "rechunk", "rechunk", "two",
-             "concat", "mean", "argmax", "zero"]
+             "concat", "mean", "argmax", "zero", "qr", "svd"]
     kind = kind or rng.choice(kinds)
+    if kind in ("qr", "svd"):
+        # tall and skinny, one column block, row chunks = a multiple of the column count (the other shapes are C12's business)
+        ncol = rng.choice([1, 2])
+        rows_per_chunk = ncol * rng.choice([1, 2]) if ncol == 1 else 2
+        nblocks = rng.randint(2, 4)
+        return {"kind": kind, "shape": [rows_per_chunk * nblocks, ncol], "chunks": [rows_per_chunk, ncol], "steps": []}
     nd = 2 if kind in ("unstack", "rechunk", "concat", "argmax", "mean") else rng.choice([1, 2, 2])
     shape = [rng.randint(2, 4), rng.randint(2, 6)][:nd] if nd == 2 else [rng.randint(2, 8)]
     while math.prod(shape) > 24:
@@ -101,6 +111,15 @@ def build(desc, spec):
     import cubed.array_api as xp
 
     shape, chunks = tuple(desc["shape"]), tuple(desc["chunks"])
+    if desc["kind"] in ("qr", "svd"):
+        # several output arrays written by the same task; compared with the uninterrupted run (expected = None)
+        base = (np.arange(1, math.prod(shape) + 1, dtype="float64").reshape(shape) ** 1.5) + np.eye(*shape)
+        a = xp.asarray(base, chunks=chunks, spec=spec)
+        if desc["kind"] == "qr":
+            q, r = xp.linalg.qr(a)
+            return [q, r], None
+        u, sv, vh = xp.linalg.svd(a, full_matrices=False)
+        return [u, sv, vh], None
     dtype = "float64" if desc["kind"] == "mean" else "int64"
     base = ((np.arange(math.prod(shape)) * 5) % 11 - 3).astype(dtype).reshape(shape)
     a = xp.asarray(base, chunks=chunks, spec=spec)
@@ -558,7 +577,21 @@ def judge(ctx, subj, cr, rs):
 _CACHE = {"obs": 0}
 
 
-def run_subject(ctx, desc, optimize, with_model, budget_deadline, procs_left, pending):
+def decisive(plan, present):
+    """Names of multi-output operations of which, in the store `present`, one output is complete and a sibling is not —
+    the states in which 'all outputs must be complete' differs from 'some output is complete'."""
+    out = []
+    for o in plan["ops"]:
+        outs = [plan["arrays"][a] for a in o["outputs"]]
+        if len(outs) < 2:
+            continue
+        comp = [bool(a["grid"]) and all(k in present for k in a["grid"]) for a in outs]
+        if any(comp) and not all(comp):
+            out.append(o["name"])
+    return out
+
+
+def run_subject(ctx, desc, optimize, with_model, budget_deadline, procs_left, pending, corpus=False):
     """All crash points of one program.  Returns number of crash points evaluated; requests for the model are
     appended to `pending` (answered in one driver run per batch, see `flush`)."""
     subj = Subject(desc, optimize)
@@ -570,7 +603,9 @@ def run_subject(ctx, desc, optimize, with_model, budget_deadline, procs_left, pe
             ctx.fail("uninterrupted compute failed: %r" % (e,), subj.case)
             return 0
         import numpy as np
-        if not all(np.array_equal(v, e) for v, e in zip(subj.clean_values, subj.expected)):
+        if subj.expected is None:
+            subj.expected = [np.asarray(v) for v in subj.clean_values]
+        elif not all(np.array_equal(v, e) for v, e in zip(subj.clean_values, subj.expected)):
             # wrong values without any crash are C01's business; resume is compared with the clean run
             ctx.notes.append("clean run differs from NumPy for %r (not a C09 matter)" % (desc,))
             subj.expected = [np.asarray(v) for v in subj.clean_values]
@@ -590,11 +625,16 @@ def run_subject(ctx, desc, optimize, with_model, budget_deadline, procs_left, pe
                 execs.append("threads")
             for ex in execs:
                 cr = subj.crash(j)
+                dec = decisive(subj.plan, cr["snap"])
+                if dec and ex == "single-threaded" and "threads" not in execs:
+                    execs.append("threads")     # one output complete, a sibling not: also resume in parallel
                 rs = subj.resume(ex)
                 n += 1
                 judge(ctx, subj, cr, rs)
                 nontrivial = bool(cr["snap"]) and cr["crashed"]
-                ctx.count({"program": desc, "optimize": optimize, "j": j, "executor": ex,
+                if dec:
+                    ctx.dist["decisive:one-output-complete-sibling-incomplete"] += 1
+                ctx.count({"program": desc, "optimize": optimize, "j": j, "executor": ex, "decisive_ops": dec,
                            "resumed_ops": rs["ops_started"], "outcome": rs["exception"] or "done"},
                           nontrivial=nontrivial,
                           kind="%s/%s/%s" % (desc["kind"], "fused" if optimize else "unfused", ex))
@@ -604,12 +644,17 @@ def run_subject(ctx, desc, optimize, with_model, budget_deadline, procs_left, pe
                     what.append(("crash", cr, rs))
         # crashes with several tasks in flight: the store at the crash is not a prefix of the sequential trace
         if not has_structured and subj.total >= 6 and time.time() < budget_deadline:
-            for j in sorted({subj.total // 2, subj.total - 2}):
+            js = sorted({subj.total // 2, subj.total - 2})
+            if corpus:
+                js = list(range(1, subj.total, 2))      # the corpus: several tasks in flight at every 2nd point
+            for j in js:
                 cr = subj.crash(j, executor="threads")
                 cr["executor"] = "threads"
                 rs = subj.resume("single-threaded")
                 n += 1
                 judge(ctx, subj, cr, rs)
+                if decisive(subj.plan, cr["snap"]):
+                    ctx.dist["decisive:one-output-complete-sibling-incomplete"] += 1
                 ctx.count({"program": desc, "optimize": optimize, "threads_crash_after": j, "chunks": sorted(cr["snap"])},
                           nontrivial=bool(cr["snap"]), kind="%s/threads-crash" % desc["kind"])
                 if with_model:
@@ -712,14 +757,32 @@ def flush(ctx, pending):
     del pending[:]
 
 
-def campaign(ctx, n_programs, with_model, seconds, procs):
+# operations one task of which writes several output arrays: every crash point, in every tier, before any time box
+CORPUS = [
+    ({"kind": "unstack", "shape": [3, 4], "chunks": [3, 2], "steps": [], "axis": 0, "pick": [0, 2], "post": False}, False),
+    ({"kind": "qr", "shape": [8, 2], "chunks": [2, 2], "steps": []}, False),
+    ({"kind": "qr", "shape": [6, 2], "chunks": [2, 2], "steps": []}, True),
+    ({"kind": "svd", "shape": [6, 2], "chunks": [2, 2], "steps": []}, False),
+]
+
+
+def run_corpus(ctx, with_model, pending):
+    n = 0
+    never = time.time() + 10 ** 6
+    for desc, optimize in CORPUS:
+        n += run_subject(ctx, desc, optimize, with_model, never, [0], pending, corpus=True)
+    return n
+
+
+def campaign(ctx, n_programs, with_model, seconds, procs, corpus=True):
     import logging
     logging.getLogger("asyncio").setLevel(logging.CRITICAL)   # in-flight futures of a crashed threads run
-    deadline = time.time() + seconds
     procs_left = [procs]
     pending = []
+    total0 = run_corpus(ctx, with_model, pending) if corpus else 0
+    deadline = time.time() + seconds
     kinds_first = ["chain", "reduce", "unstack", "rechunk", "reduce0d", "mean", "two", "zero", "argmax", "concat"]
-    total = 0
+    total = total0
     for i in range(n_programs):
         if time.time() > deadline:
             ctx.notes.append("time box reached after %d programs" % i)
@@ -742,7 +805,7 @@ def campaign(ctx, n_programs, with_model, seconds, procs):
 def corr(ctx):
     from common import use_repo
     use_repo()
-    n = campaign(ctx, ctx.budget(14, 120), True, ctx.budget(70, 560), ctx.budget(1, 8))
+    n = campaign(ctx, ctx.budget(14, 120), True, ctx.budget(50, 520), ctx.budget(1, 8))
     ctx.notes.append("corr: %d (crash, resume) experiments, each also judged by the direct oracle" % n)
     if ctx.tier == "thorough":
         ctx.exhaustive = False
@@ -754,11 +817,11 @@ def oracle(ctx):
     from common import use_repo
     use_repo()
     if _CACHE["obs"] == 0:
-        n = campaign(ctx, ctx.budget(14, 120), False, ctx.budget(70, 560), ctx.budget(1, 8))
+        n = campaign(ctx, ctx.budget(14, 120), False, ctx.budget(50, 520), ctx.budget(1, 8))
         ctx.notes.append("oracle: %d (crash, resume) experiments without the model" % n)
     else:
         # an additional independent sample with fresh programs
-        n = campaign(ctx, ctx.budget(4, 30), False, ctx.budget(15, 120), 0)
+        n = campaign(ctx, ctx.budget(4, 30), False, ctx.budget(15, 120), 0, corpus=False)
         ctx.notes.append("oracle: %d additional (crash, resume) experiments without the model" % n)
     fresh_resume(ctx)
 
@@ -787,7 +850,7 @@ def search(ctx):
     from common import use_repo
     use_repo()
     ctx.rng.seed(ctx.seed + 7919)
-    campaign(ctx, 40, False, 150 if ctx.tier == "quick" else 400, 2)
+    campaign(ctx, 40, False, 150 if ctx.tier == "quick" else 400, 2, corpus=False)
 
 
 def replay(ctx, body):
